@@ -94,7 +94,7 @@ def run(tier, seed):
     for fl, reduced in base.flavours_for(tier, seed, (0, 1, 2, 3, 5, 6)):
         for cls in ('DynGraph', 'DynDiGraph'):
             for removal in (True, False):
-                conf = U.conf_make(cls, removal, fl, p['w'])
+                conf = U.conf_make(cls, removal, fl, base.window_for(tier, fl, p['w']))
                 seen = set()
                 lconf = dict(conf, w=11)
                 plans = [('U0', conf, U.alphabet_U0(conf), 8, ()),
